@@ -690,6 +690,9 @@ class TrafficSelector(object):
     def is_subset(self, other):
         if self.ts_type != other.ts_type:
             return False
+        # a range that ends before it starts (also ports 65535-0, OPAQUE, which a kernel selector cannot express) is inside nothing
+        if self.start_port > self.end_port or self.start_addr > self.end_addr:
+            return False
         if other.ip_proto != TrafficSelector.IpProtocol.ANY and self.ip_proto != other.ip_proto:
             return False
         if self.start_port < other.start_port or self.end_port > other.end_port:
